@@ -48,15 +48,21 @@ Next == \/ m = 0 /\ m' \in {0 - k : k \in 1..NB}
         \/ m < 0 /\ m' \in {(0 - m) + NB * j : j \in 0..((Count + m) \div NB)}
 Spec == Init /\ [][Next]_m
 
-\* clause violated by one conversion result r against the input skeleton ein (<<"", "">> if none)
-ConvClause(tag, r, ein, shapeOK(_)) ==
+\* well-formed skeleton over the table whose atoms all have a Boolean value in every state
+RECURSIVE Good(_)
+Good(sk) == /\ Len(sk) >= 2 /\ sk[1] \in 0..5
+            /\ IF sk[1] = 0 THEN Len(sk) = 2 /\ sk[2] \in DOMAIN A /\ IsAtom(A[sk[2]]) /\ B[sk[2]]
+               ELSE /\ (sk[1] = 1 => Len(sk) = 2) /\ (sk[1] \in {4, 5} => Len(sk) = 3)
+                    /\ \A i \in Kids(sk) : Good(sk[i])
+
+\* clause violated by one conversion result r against the truth table mi of the input (<<"", "">> if none)
+ConvClause(tag, r, mi, shapeOK(_)) ==
    IF r.st = "timeout" THEN <<tag \o "-timeout", "">>
    ELSE IF r.st # "ok" THEN <<tag \o "-raises", r.exc>>
    ELSE IF ~SkOK(A, r.out) THEN <<tag \o "-shape", "malformed">>
    ELSE IF ~shapeOK(r.out) THEN <<tag \o "-shape", "">>
    ELSE IF ~BoolEverywhere(B, r.out) THEN <<tag \o "-equiv", "not-boolean">>
-   ELSE LET mi == TT(T, N, ein)
-            mo == TT(T, N, r.out)
+   ELSE LET mo == TT(T, N, r.out)
         IN IF mi = mo THEN <<"", "">>
            ELSE <<tag \o "-equiv", IF mo \subseteq mi THEN "loses-models"
                                     ELSE IF mi \subseteq mo THEN "gains-models" ELSE "differs">>
@@ -68,15 +74,16 @@ Report(o, c, f) == c[1] = "" \/ PrintT(<<"FAIL", o.id, c[1], c[2], f>>)
 Verdict ==
    m > 0 =>
       LET o == Obs[m] IN
-      IF ~SkOK(A, o.e) \/ ~BoolEverywhere(B, o.e) THEN PrintT(<<"FAIL", o.id, "machinery-bad-case", "", "">>)
+      IF ~Good(o.e) THEN PrintT(<<"FAIL", o.id, "machinery-bad-case", "", "">>)
       ELSE IF o.built # "ok" THEN PrintT(<<"FAIL", o.id, "input-build", o.built, "">>)
       ELSE IF ~SkOK(A, o.ein) THEN PrintT(<<"FAIL", o.id, "input-build", "malformed", "">>)
-      ELSE IF ~BoolEverywhere(B, o.ein) \/ TT(T, N, o.e) # TT(T, N, o.ein)
+      ELSE LET mi == TT(T, N, o.ein) IN
+           IF ~SkEq(o.ein, o.e) /\ (~Good(o.ein) \/ TT(T, N, o.e) # mi)
            THEN PrintT(<<"FAIL", o.id, "input-build", "not-equivalent", "">>)
-      ELSE LET f == Feature(o.ein) IN
-           /\ Report(o, ConvClause("nnf", o.nnf, o.ein, IsNNF), f)
-           /\ Report(o, ConvClause("dnf", o.dnf, o.ein, IsDNF), f)
-           /\ (f = "plain" \/ PrintT(<<"FEATURE", o.id, f>>))
+           ELSE LET f == Feature(o.ein) IN
+                /\ Report(o, ConvClause("nnf", o.nnf, mi, IsNNF), f)
+                /\ Report(o, ConvClause("dnf", o.dnf, mi, IsDNF), f)
+                /\ (f = "plain" \/ PrintT(<<"FEATURE", o.id, f>>))
 
 \* the context the judge evaluates in (printed once, for the evidence)
 ASSUME PrintT(<<"CONTEXT", Count, Len(SS), Len(A)>>)
